@@ -230,7 +230,7 @@ static void materialise(Ctx *x) {
     int dro = 0;
     /* dest */
     x->dbytes = (size_t)c->d_obj * f->dunit;
-    if (c->d_huge >= 2) { x->dl = none_pg; x->dh = NULL; x->dbytes = 0; }
+    if (c->d_huge >= 2 && c->d_huge != 4) { x->dl = none_pg; x->dh = NULL; x->dbytes = 0; }      /* 4: above the limit, but a real object of that size whose size the library is told */
     else {
         size_t off = obj_off(c->place, x->dbytes);
         x->dh = slot[SL_D].h + off;
@@ -407,7 +407,7 @@ static const char *relclass(const Ctx *x, char *b) {
     int hs = has_tok(f, "S") || has_tok(f, "T");
     if (c->d_null) p += sprintf(p, "dnull,");
     if (c->dmax == 0) p += sprintf(p, "dmax0,");
-    if (c->d_huge >= 2) p += sprintf(p, "dmax>lim,");
+    if (c->d_huge == 4) p += sprintf(p, "dmax>lim-but-object-size-known,"); else if (c->d_huge >= 2) p += sprintf(p, "dmax>lim,");
     if (c->d_bos == 2) p += sprintf(p, "dmax>bos,");
     if (hs && c->s_null) p += sprintf(p, "snull,");
     if (hs && has_tok(f, "l") && c->s_huge >= 2) p += sprintf(p, "slen>lim,");
@@ -461,7 +461,7 @@ static void oracle(Ctx *x) {
         if (P == 5) report(x, "touched-before-reject|%s|%s", x->fault == 1 ? "write" : "read", relclass(x, b2));
         n_fault_skip++; return;
     }
-    if ((P == 1 || P == 2) && (c->d_huge >= 2 || c->d_bos == 2)) { n_fault_skip += x->fault != 0; return; }  /* untruthful sizes */
+    if ((P == 1 || P == 2) && ((c->d_huge >= 2 && c->d_huge != 4) || c->d_bos == 2)) { n_fault_skip += x->fault != 0; return; }  /* untruthful sizes */
     if (P == 1) {
         if (x->fault == 1) { report(x, "write-fault|%s|%s", posclass(x, b1), relclass(x, b2)); return; }
         if (x->fault) { n_masked++; return; }
@@ -710,11 +710,12 @@ void gen_generic(int fi) {
     /* ---- part 2: the violation lattice: every combination of generic violations on a reduced size set */
     {
         int dnull_v[] = {0, 1};
-        struct { size_t dmax; int huge; } dmv[8]; int ndmv = 0;
+        struct { size_t dmax; int huge; } dmv[9]; int ndmv = 0;
         dmv[ndmv].dmax = 3 * f->w / f->dunit; dmv[ndmv++].huge = 0;   /* three elements */
         dmv[ndmv].dmax = 0; dmv[ndmv++].huge = 0;
         if (f->lim == LIM_STR || f->lim == LIM_WSTR) { dmv[ndmv].dmax = fn_limit(f); dmv[ndmv++].huge = 1; }
         dmv[ndmv].dmax = fn_limit(f) + 1; dmv[ndmv++].huge = 2;
+        if ((f->lim == LIM_STR || f->lim == LIM_WSTR) && has_bd) { dmv[ndmv].dmax = fn_limit(f) + 8; dmv[ndmv++].huge = 4; }    /* above the limit with a real object of that size, its size known to the library */
         dmv[ndmv].dmax = (size_t)-1; dmv[ndmv++].huge = 3;
         if (f->dunit > 1) { dmv[ndmv].dmax = (size_t)-1 / f->dunit + 3; dmv[ndmv++].huge = 3; }     /* a count whose product with the element size wraps to a few bytes */
         struct { size_t slen; int huge; } slv[6]; int nslv = 0;
@@ -745,10 +746,11 @@ void gen_generic(int fi) {
                 }
                 continue; /* the rest is part 1 */
             }
-            if (al && (idn || isn || dmv[idm].huge >= 2)) continue;                  /* aliasing needs two real pointers */
+            if (al && (idn || isn || (dmv[idm].huge >= 2 && dmv[idm].huge != 4))) continue;                  /* aliasing needs two real pointers */
             if (al && !(f->flags & F_QRY) && (P == 3 || P == 4 || P == 6 || P == 8)) continue;   /* identical pointers of a dest-writing call are C07's */
             if (al && src_str && !pk) continue;                                      /* the aliased operand must be a string */
-            if (c.d_huge >= 2) { c.d_obj = 0; if (dbos) continue; }
+            if (c.d_huge == 4) { if (dbos != 1) continue; c.d_obj = c.dmax; }
+            else if (c.d_huge >= 2) { c.d_obj = 0; if (dbos) continue; }
             else if (c.d_huge == 1) c.d_obj = c.dmax;
             else c.d_obj = c.dmax;
             if (dbos == 3) { if (c.d_huge || !c.dmax) continue; c.d_obj = c.dmax + 3 * f->w / f->dunit + (f->w < f->dunit); if ((c.d_obj * f->dunit) % f->w) continue; }
